@@ -25,7 +25,7 @@ def prec(e):
         return PREC[e[1]]
     if k == 'cmp':
         return PREC[e[1]]
-    if k in ('neg', 'bnot', 'not', 'pre'):
+    if k in ('neg', 'bnot', 'not', 'pre', 'deref'):
         return PREC['un']
     if k == 'post':
         return PREC['post']
@@ -52,6 +52,8 @@ def show(e, ctx=0, right=False):
         s = "%s && %s" % (show(e[1], PREC['land']), show(e[2], PREC['land'] + 1))
     elif k == 'lor':
         s = "%s || %s" % (show(e[1], PREC['lor']), show(e[2], PREC['lor'] + 1))
+    elif k == 'deref':
+        s = "*" + show(e[1], PREC['un'])
     elif k == 'neg':
         inner = show(e[1], PREC['un'])
         s = "-" + (" " if inner.startswith("-") else "") + inner
@@ -654,6 +656,10 @@ def stoks(s):
 
 def program_tokens(p):
     """the functions of a Program as token segments (main last)"""
+    if getattr(p, "oracle", None) is not None:
+        # a program with calls that take arguments / return values is judged through its twin in which every call
+        # is written out with explicit temporaries (same declarations)
+        return program_tokens(p.oracle)
     segs = []
     for (ret, name, params, body, inline) in p.funcs:
         if params or ret != 'void':
